@@ -810,7 +810,10 @@ class InterpBuiltins:
         """no_effect() : the ghost effect log is empty;  no_effect('send_start_process', ...) : none of these.
         Effects declared for the other iterations of a symbolic loop (loop<K>_effects) count as 'possibly emitted';
         after a loop whose iterations emit UNDECLARED effects the answer is unknown."""
-        self._effects_guard()
+        if getattr(self, 'callee_clause', 0):
+            # clause of a CALLEE assumed at a call site: its effect predicates are relative to the callee's own log; an
+            # unconstrained Bool keeps the other conjuncts of the clause (sound: the proved clause holds for the real value)
+            return SV(self.run.fresh('callee_no_effect', B), BOOL)
         if getattr(self, 'effects_unknown', None):
             # iterations of an earlier loop emitted effects this path's log does not contain: the answer is unknown
             return SV(self.run.fresh('no_effect_unknown', B), BOOL)
